@@ -6,6 +6,8 @@ from __future__ import annotations
 
 import z3
 
+from vx import symx
+
 from .symx import SymInt, Unsupported
 
 
@@ -73,12 +75,44 @@ class Machine:
             self.mem = z3.Store(self.mem, addr + i, z3.Extract(8 * i + 7, 8 * i, val))
 
 
+EMIT = []  # constraints "the emitted assembly text denotes the operand the IR holds", collected per run (reset by the harness)
+
+
+def _emitted_value(op, a, name):
+    """what an assembler reads from the text the REAL printer functions emit for this immediate / memory offset (mathematical integer)"""
+    import re as _re
+
+    from xdsl.dialects.x86.assembly import assembly_arg_str
+
+    if name == "immediate":
+        text = assembly_arg_str(a)
+        if type(text) is symx.TaintedStr:
+            return None  # text rendered from a wide symbolic immediate: not modelled (concrete immediates are compared)
+        if isinstance(text, str):
+            return int(text, 0)
+        return int(text)  # symbolic text rendered from a symbolic int: parsed back by the engine's string model
+    line = op.assembly_line()
+    if not isinstance(line, str):
+        raise X86Unsupported("symbolic memory offset text")
+    mm = _re.search(r"\[[a-z0-9]+([+-](?:0x[0-9a-fA-F]+|[0-9]+))?\]", line)
+    if mm is None:
+        raise X86Unsupported(f"no memory operand in emitted line {line!r}")
+    return int(mm.group(1), 0) if mm.group(1) else 0
+
+
 def _imm(op, w=64, name="immediate"):
     a = getattr(op, name)
     v = a.value.data
     s = SymInt.lift(v)
     e = s.ext(max(w, s.e.size()))
-    return z3.Extract(w - 1, 0, e) if e.size() > w else e
+    val = z3.Extract(w - 1, 0, e) if e.size() > w else e
+    # emission: the text must denote the same w-bit operand
+    em = _emitted_value(op, a, name)
+    if em is not None:
+        t = SymInt.lift(em)
+        te = t.ext(max(w + 8, t.e.size()))
+        EMIT.append(z3.Extract(w - 1, 0, te) == val)
+    return val
 
 
 def _off(op):
